@@ -49,6 +49,16 @@ Theorem C18_output_order_irrelevant : forall order1 order2 ps inp,
 Proof. exact conversion_order_irrelevant. Qed.
 Print Assumptions C18_output_order_irrelevant.
 
+(* the property's quantifier, on the model: for all iteration orders of the sets
+   of the modelled stage and all histories of earlier conversions (in possibly
+   different processes), the output for [inp] is the same *)
+Theorem C18_deterministic_model : forall order1 order2 hist1 hist2 ps1 ps2 inp,
+  set_preserving order1 -> set_preserving order2 ->
+  last (snd (run_history (conversion order1) ps1 (hist1 ++ [inp]))) (Err EFuel)
+  = last (snd (run_history (conversion order2) ps2 (hist2 ++ [inp]))) (Err EFuel).
+Proof. exact deterministic_model. Qed.
+Print Assumptions C18_deterministic_model.
+
 (* VolumeT4.__str__ sorts: the text depends on the SET of ids only *)
 Theorem C18_volume_text_order_irrelevant : forall order1 order2 k v,
   set_preserving order1 -> set_preserving order2 ->
